@@ -99,21 +99,37 @@ class StoreModel(Model):
 
     def build_root(self, root):
         world.reset_all()
+        self._root, self._hist = root, []
         if root == 'rich':
             # interleaved internal ids: G1 gets a node after G2 was imported
             self.apply(('import', 'G1', 'P1'))
             self.apply(('import', 'G2', 'P2'))
             self.apply(('add_node', 'G1', 'c'))
             self.apply(('add_link', 'G1', 'a', 'c'))
+        self._hist = []
 
+    # A state IS its history: restoring replays the calls on a freshly reset store. Copying the store's containers instead
+    # would silently repair anything that depends on object identity inside the store (two graph ids resolving to one
+    # graph object, a default factory handing out a shared object) - the explorer would then visit states the library
+    # cannot be in. Copy-snapshots are used only for the one-step look-ahead probes of the invariant.
     def snapshot(self):
-        return world.snapshot_shared() if self.flavour == 'shared' else world.snapshot_disjoint()
+        return ('H', self._root, tuple(self._hist))
 
     def restore(self, snap):
-        if self.flavour == 'shared':
-            world.restore_shared(snap)
+        if snap[0] == 'H':
+            hist = list(snap[2])
+            self.build_root(snap[1])
+            for ev in hist:
+                self.apply(ev)
         else:
-            world.restore_disjoint(snap)
+            if self.flavour == 'shared':
+                world.restore_shared(snap[1])
+            else:
+                world.restore_disjoint(snap[1])
+            self._hist = list(snap[2])
+
+    def fast_snapshot(self):
+        return ('C', world.snapshot_shared() if self.flavour == 'shared' else world.snapshot_disjoint(), tuple(self._hist))
 
     # ------------------------------------------------------------ observation
     def raw_graphs(self):
@@ -175,6 +191,7 @@ class StoreModel(Model):
 
     def apply(self, ev):
         k = ev[0]
+        self._hist = getattr(self, '_hist', []) + [ev]
         try:
             if k == 'import':
                 self.imp().import_graph_from_string(graph_string=PAYLOADS[ev[2]], graph_id=ev[1])
@@ -314,7 +331,7 @@ class StoreModel(Model):
                     if props != rawp:
                         v.append((f'read-isolation/{fl}/get_node_properties', f'{gid}/{nid}: API {props} store {rawp}'))
         # look-ahead probes: the next allocation must not disturb any resident graph
-        snap = self.snapshot()
+        snap = self.fast_snapshot()
         pre = self.observe()
         probes = [('add_node', 'PROBE', 'p'), ('import', 'PROBE', 'P2')]
         # also allocate inside every id the store knows (resident graphs and emptied ones): the new node must not take
